@@ -16,12 +16,13 @@
     [state_sim s1 s2]    same labware list (Leibniz: volumes, compositions, histories), same max_volume /
                          auto_split / diti_mode, [s1] is an EVO and [s2] a Fluent worklist, and the record
                          lists are related by [Forall2 (rec_sim (troughs_of (st_lw s1)))];
-    [dist_ids_known lws o]  if [o] is a distribute, its destination ids are ids of the destination labware;
     [plain_rec r]        r is a C, W, WD, F, B or S record; [raw_record_op o]: o is OAspWell / ODispWell /
                          OReagent (the emitters that take caller-computed positions);
     [lsig L]             (name, geometry) of a labware.
-    No well-formedness of the labware and no distinctness of the names is needed for the theorems; with
-    distinct names [troughs_of] identifies THE labware of that name (C16_troughs_meaning). *)
+    No well-formedness of the labware, no distinctness of the names and no condition on the ids passed to
+    the operations is needed for the theorems ([distribute] refuses destination ids unknown to the
+    destination labware before it computes any position); with distinct names [troughs_of] identifies THE
+    labware of that name (C16_troughs_meaning). *)
 From Robo Require Import Prelude Str Wells Utils Labware Tips Records Partition Params Worklist EvoCmd
   Program Invariants DeviceProofs.
 
@@ -70,30 +71,15 @@ Print Assumptions C16_troughs_meaning.
 (** one operation, accepted or rejected: same outcome, simulation preserved (so the partial effects of a
     rejected operation are the same on both devices); names and geometries never change *)
 Theorem C16_step : forall s1 s2 o,
-  state_sim s1 s2 -> dev_indep o -> dist_ids_known (st_lw s1) o ->
+  state_sim s1 s2 -> dev_indep o ->
   let '(s1', e1) := step s1 o in let '(s2', e2) := step s2 o in
   state_sim s1' s2' /\ e1 = e2 /\ map lsig (st_lw s1') = map lsig (st_lw s1).
 Proof. exact step_state_sim. Qed.
 Print Assumptions C16_step.
 
-(** without [dist_ids_known] the statement
-      forall s1 s2 o, state_sim s1 s2 -> dev_indep o ->
-        let '(s1', e1) := step s1 o in let '(s2', e2) := step s2 o in state_sim s1' s2' /\ e1 = e2
-    is false: a distribute to "AB01" is refused by the EVO numbering before any effect, while the Fluent
-    numbering accepts it and the call fails only after the source volume has been removed ([o]), or fails
-    with VolumeUnderflowError instead ([o']) *)
-Theorem C16_step_unknown_id_refuted :
-  exists s1 s2 o o', state_sim s1 s2 /\ wf_state s1 /\ dev_indep o /\ dev_indep o' /\
-    snd (step s1 o) = Some EReject /\ snd (step s2 o) = Some EReject /\
-    fst (step s1 o) = s1 /\
-    map lw_vols (st_lw (fst (step s2 o))) <> map lw_vols (st_lw s2) /\
-    snd (step s1 o') = Some EReject /\ snd (step s2 o') = Some EUnderflow.
-Proof. exact distribute_unknown_id_refuted. Qed.
-Print Assumptions C16_step_unknown_id_refuted.
-
 (** any program of device-independent operations *)
 Theorem C16_run : forall ops s1 s2,
-  state_sim s1 s2 -> Forall dev_indep ops -> Forall (dist_ids_known (st_lw s1)) ops ->
+  state_sim s1 s2 -> Forall dev_indep ops ->
   let '(s1', es1) := run s1 ops in let '(s2', es2) := run s2 ops in
   state_sim s1' s2' /\ es1 = es2 /\ map lsig (st_lw s1') = map lsig (st_lw s1).
 Proof. exact run_state_sim. Qed.
@@ -109,7 +95,7 @@ Print Assumptions C16_init.
 (** the two together: equal final labware, equal outcome lists, record lists related w.r.t. the troughs
     of the initial labware list *)
 Theorem C16_run_init : forall lws max_volume autosplit diti ops,
-  Forall dev_indep ops -> Forall (dist_ids_known lws) ops ->
+  Forall dev_indep ops ->
   let r1 := run {| st_lw := lws; st_wl := init_wl Evo max_volume autosplit diti |} ops in
   let r2 := run {| st_lw := lws; st_wl := init_wl Fluent max_volume autosplit diti |} ops in
   st_lw (fst r1) = st_lw (fst r2) /\ snd r1 = snd r2 /\
@@ -125,7 +111,7 @@ Proof. exact no_trough_identical. Qed.
 Print Assumptions C16_no_trough_identical.
 
 Theorem C16_run_no_trough_identical : forall ops s1 s2,
-  state_sim s1 s2 -> Forall dev_indep ops -> Forall (dist_ids_known (st_lw s1)) ops ->
+  state_sim s1 s2 -> Forall dev_indep ops ->
   (forall L, In L (st_lw s1) -> is_trough (lw_geom L) = false) ->
   w_recs (st_wl (fst (run s1 ops))) = w_recs (st_wl (fst (run s2 ops))) /\
   st_lw (fst (run s1 ops)) = st_lw (fst (run s2 ops)) /\
@@ -168,13 +154,15 @@ Theorem C16_base_dispense : forall s k wells vols label comps kw L L' w,
 Proof. exact base_dispense. Qed.
 Print Assumptions C16_base_dispense.
 
-(** [distribute] computes the destination positions before anything else: refused without any effect *)
+(** [distribute] computes the destination positions right after its argument checks (trough source,
+    volume, destination ids known to the destination labware): refused without any effect *)
 Theorem C16_base_distribute : forall s ks kd dwells a Ls Ld v xv,
   w_dev (st_wl s) = BaseDev ->
   nth_error (st_lw s) ks = Some Ls -> nth_error (st_lw s) kd = Some Ld ->
   g_vrows (lw_geom Ls) = Some v -> rvol_x (d_volume a) = Some xv -> xv <> XNaN ->
   (match xv with XQ q => Qgtb q (w_max (st_wl s)) | XPInf => true | _ => false end) = false ->
   flattenF dwells <> [] ->
+  (forall w, In w (flattenF dwells) -> lw_index Ld w <> None) ->
   distribute s ks kd dwells a = (s, Some ECompat).
 Proof. exact base_distribute. Qed.
 Print Assumptions C16_base_distribute.
@@ -229,7 +217,6 @@ Print Assumptions C16_base_run.
 Example C16_example_hyps :
   state_sim (ex16_state Evo) (ex16_state Fluent) /\
   Forall dev_indep ex16_prog /\
-  Forall (dist_ids_known (st_lw (ex16_state Evo))) ex16_prog /\
   wf_state (ex16_state Evo) /\ NoDup (map lw_name (st_lw (ex16_state Evo))).
 Proof. exact ex16_hyps. Qed.
 
@@ -250,6 +237,15 @@ Example C16_example_run :
      "A;trough;;;1;;30.00;;;;"; "D;plate;;;2;;30.00;;;;"; "W1;"; "B;";
      "A;trough;;;1;;75.00;;;;"; "D;plate;;;1;;75.00;;;;"; "W1;"; "B;";
      "C;dist"; "R;trough;;;5;8;plate;;;3;6;20;W;1;1;0;4;5"; "C;too much"].
+Proof. vm_compute. repeat split; reflexivity. Qed.
+
+(** destination ids unknown to the destination labware ("AB01" on the plate, which the Fluent numbering
+    alone would accept): refused on both devices before any effect *)
+Example C16_example_unknown_id :
+  step (ex16_state Evo) ex16_unknown_1 = (ex16_state Evo, Some EReject) /\
+  step (ex16_state Fluent) ex16_unknown_1 = (ex16_state Fluent, Some EReject) /\
+  step (ex16_state Evo) ex16_unknown_2 = (ex16_state Evo, Some EReject) /\
+  step (ex16_state Fluent) ex16_unknown_2 = (ex16_state Fluent, Some EReject).
 Proof. vm_compute. repeat split; reflexivity. Qed.
 
 (** a destination that is a trough: the R records differ in the destination range *)
